@@ -59,6 +59,7 @@ type Exec struct {
 	usedUnknown map[string]bool
 	usedContracts map[string]bool
 	aborted bool
+	lemmaKey string
 	pendingBinds []Val
 	pendingFn *ssa.Function
 	prop string // property being decided: only clauses tagged with it (or untagged) are active
@@ -178,6 +179,9 @@ func (ex *Exec) assumeTypeInv(st *State, x Term, t types.Type) {
 	case SortSlice:
 		st.assume(sliceInv(x))
 	case SortBytes:
+		if x.S != BEmpty.S && !strings.HasPrefix(x.S, "lit_") {
+			st.assume(Le(BLen(x), BigLit(pow2(56))))
+		}
 	}
 }
 
@@ -247,7 +251,14 @@ func (ex *Exec) cover(st *State, label string) {
 	st.script = append(st.script, Cmd{Check: c})
 }
 
-func funcKey(fn *ssa.Function) string { return fn.String() }
+func funcKey(fn *ssa.Function) string {
+	if curLemmaKey != "" {
+		return curLemmaKey
+	}
+	return fn.String()
+}
+
+var curLemmaKey string
 
 func shortFn(fn *ssa.Function) string {
 	s := fn.String()
@@ -1155,6 +1166,22 @@ func (ex *Exec) binop(st *State, fr *Frame, op token.Token, a, b Val, rty types.
 				return TV(BigLit(new(big.Int).Xor(x.K, y.K)), rty)
 			}
 		}
+		// Bit operations that linear arithmetic cannot express become
+		// applications of uninterpreted functions bvop.<op><width>: still a
+		// function of the operands (so code and spec agree syntactically); their
+		// bit-vector meaning is supplied in `mode bvbridge` (see DESIGN.md 2.3).
+		if name := bvOpName(op); name != "" && isInteger(rty) {
+			w := intBits(a.Ty)
+			if w < intBits(rty) {
+				w = intBits(rty)
+			}
+			r := ex.bvop(st, name, w, x, y)
+			if op == token.SHL && intBits(rty) < w {
+				r = ModE(r, pow2(intBits(rty)))
+			}
+			st.assume(rangeFact(r, rty))
+			return TV(r, rty)
+		}
 		st.note("unmodelled integer op " + op.String() + " (int mode)")
 		return ex.havocVal(st, "bitop", rty)
 	case x.Sort == SortBool && y.Sort == SortBool:
@@ -1218,6 +1245,31 @@ func (ex *Exec) binop(st *State, fr *Frame, op token.Token, a, b Val, rty types.
 	}
 	st.note(fmt.Sprintf("unmodelled binop %s on %s,%s", op, x.Sort, y.Sort))
 	return ex.havocVal(st, "binop", rty)
+}
+
+func bvOpName(op token.Token) string {
+	switch op {
+	case token.AND:
+		return "and"
+	case token.OR:
+		return "or"
+	case token.XOR:
+		return "xor"
+	case token.SHL:
+		return "shl"
+	case token.SHR:
+		return "shr"
+	case token.AND_NOT:
+		return "andnot"
+	}
+	return ""
+}
+
+// bvop applies the uninterpreted bit operation name<w> (Int x Int -> Int).
+func (ex *Exec) bvop(st *State, name string, w int, x, y Term) Term {
+	fn := fmt.Sprintf("bvop.%s%d", name, w)
+	st.useBvop(fn)
+	return app(SortInt, fn, x, y)
 }
 
 func (ex *Exec) sliceNilTest(x, y Term) Term {
